@@ -79,6 +79,11 @@ def run_property(run, oracle, nhist, length, rule, sanitize=None, extra_historie
     compared = sum(r["compared"] for r in res)
     run.obligation("correspondence: real ircserver/FSM == Lean model on %d histories (%d ops compared, %d histories cut short by a declined/panicking op)" % (
         len(hs), compared, sum(1 for r in res if r["declined"] or r["panic"])), corr_ok, detail)
+    extra_bad = getattr(run, "api_exp", None)
+    if hasattr(run, "api_exp"):
+        run.obligation("expiry sweep on the real clock (ExpireSessions through the API harness)", extra_bad is None, extra_bad[1] if extra_bad else "")
+        if extra_bad:
+            run.violation("oracle:" + extra_bad[0], extra_bad[1], {"kind": "api", "ops": extra_bad[2], "why": extra_bad[1]}, True)
     # property oracle on the implementation's own output
     bad = None
     pos = 0
@@ -127,7 +132,7 @@ def run_property(run, oracle, nhist, length, rule, sanitize=None, extra_historie
             return o2 is not None and o2[1] == sig
         small = shrink_history(exe, h[:idx + 1], fails)
         run.violation(sig, text, {"kind": "irc", "ops": small, "readable": [txt(o) or o for o in small], "why": text}, True)
-    elif not proved or not corr_ok:
+    elif (not proved or not corr_ok) and not run.violations:
         failed = [o[0] for o in run.failed_obligations()]
         rep = {"broken": failed, "detail": [o[2][-1500:] for o in run.failed_obligations()]}
         if mism:
